@@ -53,6 +53,7 @@ const (
 	fmOnlineUserNoPassword   // ... and no password at all
 	fmEmptyPasswordString    // known user, "Password": ""
 	fmDigestPrefix           // known user, the first half (or the first character) of the right digest
+	fmDigestOverlong         // known user, more hex digits than a SHA3-256 digest has (the right digest twice, a 512-bit digest, 65/66 digits)
 	fmKinds
 )
 
@@ -242,6 +243,9 @@ func (st *c06State) firstMessage(kind int, user, password string) ([]byte, bool)
 	case fmDigestPrefix:
 		d := digest(password)
 		v = auth(map[string]any{"User": user, "Password": d[:[]int{1, 32, 63}[len(user)%3]]})
+	case fmDigestOverlong:
+		d := digest(password)
+		v = auth(map[string]any{"User": user, "Password": []string{d + d, d + digest("x"), d + "0", d + "00", d + d + d + d}[(len(user)+len(password))%5]})
 	}
 	b, _ := json.Marshal(v)
 	return b, true
